@@ -532,6 +532,7 @@ fn parse_entity_def<'input>(
             let start = s.pos();
             s.skip_bytes(|c| c != quote);
             let value = s.slice_back_span(start);
+            is_xml_str(value.as_str(), start, s)?;
             s.consume_byte(quote)?;
             Ok(Some(value))
         }
